@@ -162,6 +162,89 @@ func vEqString(a, b string) bool  { return a == b }
 func vProvable(c bool) bool       { return c }
 func vRetype(v, proto any) any    { return nil }
 func vWatchAll(p any, prefix string) {}
+// vFreeze / vCheckFrozen natively: a deep snapshot of the exported content
+// reachable from each value, compared again by vCheckFrozen.
+type vFrozenRec struct {
+	label string
+	x     any
+	snap  any
+}
+
+var vFrozenSet []vFrozenRec
+
+func vSnap(v reflect.Value, depth int) any {
+	if depth > 6 || !v.IsValid() {
+		return nil
+	}
+	switch v.Kind() {
+	case reflect.Ptr, reflect.Interface:
+		if v.IsNil() {
+			return nil
+		}
+		return []any{"&", vSnap(v.Elem(), depth+1)}
+	case reflect.Slice:
+		if v.IsNil() {
+			return nil
+		}
+		fallthrough
+	case reflect.Array:
+		out := make([]any, v.Len())
+		for i := range out {
+			out[i] = vSnap(v.Index(i), depth+1)
+		}
+		return out
+	case reflect.Map:
+		out := map[string]any{}
+		for _, k := range v.MapKeys() {
+			out[fmt.Sprint(k.Interface())] = vSnap(v.MapIndex(k), depth+1)
+		}
+		return out
+	case reflect.Struct:
+		out := map[string]any{}
+		for i := 0; i < v.NumField(); i++ {
+			if v.Type().Field(i).IsExported() {
+				out[v.Type().Field(i).Name] = vSnap(v.Field(i), depth+1)
+			}
+		}
+		return out
+	case reflect.Func, reflect.Chan, reflect.UnsafePointer:
+		return nil
+	}
+	if v.CanInterface() {
+		return v.Interface()
+	}
+	return fmt.Sprint(v)
+}
+
+func vFreeze(label string, xs ...any) {
+	for _, x := range xs {
+		vFrozenSet = append(vFrozenSet, vFrozenRec{label, x, vSnap(reflect.ValueOf(x), 0)})
+	}
+}
+func vThaw() { vCheckFrozen(); vFrozenSet = nil }
+func vCheckFrozen() {
+	for _, f := range vFrozenSet {
+		vAssert(reflect.DeepEqual(f.snap, vSnap(reflect.ValueOf(f.x), 0)), f.label)
+	}
+}
+
+// vSetField natively: reflection with integer conversion.
+func vSetField(ptr any, name string, val any) bool {
+	v := reflect.ValueOf(ptr)
+	if v.Kind() != reflect.Ptr || v.Elem().Kind() != reflect.Struct {
+		return false
+	}
+	f := v.Elem().FieldByName(name)
+	if !f.IsValid() || !f.CanSet() {
+		return false
+	}
+	x := reflect.ValueOf(val)
+	if x.Type().ConvertibleTo(f.Type()) {
+		f.Set(x.Convert(f.Type()))
+		return true
+	}
+	return false
+}
 func vFact(key string, v any)     {}
 func vMapOrderAll()               {}
 func vAllocWatch()                {}
